@@ -6,6 +6,7 @@ Static tie for libs/testing/src/virtual_sign_bus.rs, statement level: every meth
 `busStep`.  Obligations added to `./check C12 C13 C14` (and C08 / C19, which rest on the same model).
 -/
 import Flipdot.Generated.VSignFull
+import Flipdot.Props.C14
 set_option linter.unusedSimpArgs false
 namespace Flipdot.Tie.VSignFull
 open Flipdot
@@ -170,5 +171,34 @@ theorem busProcessMessage_eq (bus : List VSign) (m : Msg) : G.busProcessMessage 
       | none => simp only []; cases busStep rest m with
         | error e => rfl
         | ok q => rfl
+
+/-! ### C12, C13 and C14 stated of the source text
+
+With `processMessage_eq` / `busProcessMessage_eq` the property theorems about the model's `vstep` / `busStep` are theorems
+about `VirtualSign::process_message` / `VirtualSignBus::process_message` as compiled from the source today. -/
+
+/-- C12: for every sign state (reachable or not) and every message, the source's `process_message` does not panic. -/
+theorem src_no_panic (s : VSign) (m : Msg) : ∃ r, G.processMessage s m = .ok r := by
+  rw [processMessage_eq]; exact C12.vstep_no_panic s m
+
+/-- C12: nor does the bus loop, for any number of signs in any states. -/
+theorem src_bus_no_panic (bus : List VSign) (m : Msg) : ∃ r, G.busProcessMessage bus m = .ok r := by
+  rw [busProcessMessage_eq]; exact C12.busStep_no_panic bus m
+
+/-- C13: the reply and the reported state are those of the documented sign-side machine. -/
+theorem src_step_refines (s : VSign) (m : Msg) :
+    ∃ s', G.processMessage s m = .ok (s', (C13.specStep s m).1) ∧ s'.state = (C13.specStep s m).2 := by
+  rw [processMessage_eq]; exact C13.step_refines s m
+
+/-- C14: with distinct addresses every sign on the bus ends up exactly where it would be had it received the message
+    alone (through its own `process_message`). -/
+theorem src_each_sign_as_if_alone (bus bus' : List VSign) (m : Msg) (r : Option Msg)
+    (hd : (bus.map (·.addr)).Nodup) (h : G.busProcessMessage bus m = .ok (bus', r)) :
+    ∀ (i : Nat) (s : VSign), bus[i]? = some s →
+      ∃ s' r', G.processMessage s m = .ok (s', r') ∧ bus'[i]? = some s' := by
+  rw [busProcessMessage_eq] at h
+  intro i s hs
+  obtain ⟨s', r', h1, h2⟩ := C14.each_sign_as_if_alone bus bus' m r hd h i s hs
+  exact ⟨s', r', by rw [processMessage_eq]; exact h1, h2⟩
 
 end Flipdot.Tie.VSignFull
